@@ -52,6 +52,7 @@ class Track:
             "node": int(node.config.node_scan_duration),
             "a": self.shadow["a"], "v": self.shadow["v"], "fh": self.shadow["fh"], "fv": self.shadow["fv"],
             "fov": self.shadow["fov"],
+            "inst": bool(sw is not None and getattr(sw.operating_state, "name", "") == "INSTALLING"),
         }
 
     # -- objects by name -----------------------------------------------------------------
